@@ -638,6 +638,17 @@ func (se *SpecEnv) callExpr(x *SCall) (Value, types.Type) {
 				return Or(Eq(p, IntLit(0)), Select(se.ex.alive(se.cur), p)), boolT
 			}
 			return Select(se.ex.alive(se.cur), v), boolT
+		case "indexin":
+			// indexin(s, x): for a list s returned by idset Members(), the position of element x in it
+			v, t := se.evalTerm(x.Args[0])
+			sl, isSlice := types.Unalias(t).Underlying().(*types.Slice)
+			if !isSlice {
+				se.fail(x, "indexin() of non-slice %s", t)
+			}
+			e, _ := se.evalTerm(x.Args[1])
+			name := "idset.members.pos"
+			vc.declare(name, fmt.Sprintf("(declare-fun %s (Int %s) %s)", name, vc.SortOf(sl.Elem()), vc.IntSort()))
+			return App(name, vc.IntSort(), vc.SlicePtr(v), e), types.Typ[types.Int]
 		case "base":
 			// base(s): the backing array of slice s as an opaque reference (usable with ==, !=, nil, alive, fresh, newobj)
 			v, t := se.evalTerm(x.Args[0])
